@@ -9,6 +9,8 @@ sys.path.insert(0, os.path.join(ROOT, 'contracts'))
 CACHE = os.environ.get('VERIF_CACHE') or os.path.join(ROOT, '.cache')
 NPROC = int(os.environ.get('VERIF_JOBS', os.cpu_count() or 8))
 BIGMEM_JOBS = int(os.environ.get('VERIF_BIGMEM_JOBS', '2'))
+RETRY_JOBS = int(os.environ.get('VERIF_RETRY_JOBS', '3'))
+MIDMEM_JOBS = int(os.environ.get('VERIF_MIDMEM_JOBS', '6'))
 
 sys.path.insert(0, os.path.join(ROOT, 'models'))
 import cxx2c, tu, families, gen_x86
@@ -381,8 +383,10 @@ def run_obligations(obs, scratch, tier, progress=True):
     t0 = time.time()
     # obligations with fully unwound loops need 10-20 GB each: they run after the others, at most BIGMEM_JOBS at a time
     big = [j for j in jobs if j[9]]
-    small = [j for j in jobs if not j[9]]
-    for batch, workers in ((small, NPROC), (big, min(NPROC, BIGMEM_JOBS))):
+    # queries known to need several GB each (binary64 ldexp against the exact wide product: 6-7 GB): at most MIDMEM_JOBS at a time
+    mid = [j for j in jobs if not j[9] and getattr(bykey[j[0]].contract, 'mem_gb', 0) >= 4]
+    small = [j for j in jobs if not j[9] and j not in mid]
+    for batch, workers in ((small, NPROC), (mid, min(NPROC, MIDMEM_JOBS)), (big, min(NPROC, BIGMEM_JOBS))):
         if not batch:
             continue
         with ProcessPoolExecutor(max_workers=workers) as ex:
@@ -393,4 +397,17 @@ def run_obligations(obs, scratch, tier, progress=True):
                 done += 1
                 if progress and (done % 50 == 0 or done == len(jobs)):
                     print('  [%d/%d obligations, %.0fs]' % (done, len(jobs), time.time() - t0), file=sys.stderr, flush=True)
+    # a solver process that died without a parsable result (in practice: the kernel's OOM killer when many multi-gigabyte
+    # queries ran side by side) says nothing about the obligation: run those again, a few at a time
+    retry = [j for j in jobs if (bykey[j[0]].result or {}).get('verdict') == 'undecided'
+             and ((bykey[j[0]].result or {}).get('reason') or '').startswith('cbmc error')]
+    if retry:
+        if progress:
+            print('  [re-running %d obligation(s) whose solver process died, %d at a time]' % (len(retry), min(NPROC, RETRY_JOBS)), file=sys.stderr, flush=True)
+        with ProcessPoolExecutor(max_workers=min(NPROC, RETRY_JOBS)) as ex:
+            futs = [ex.submit(_worker, j) for j in retry]
+            for f in as_completed(futs):
+                key, r = f.result()
+                r['solver_s'] = r.get('solver_s', 0) + (bykey[key].result or {}).get('solver_s', 0)
+                bykey[key].result = r
     return obs
